@@ -9,8 +9,8 @@ package main
 
 import (
 	"bytes"
-	"fmt"
 	"encoding/json"
+	"fmt"
 	"os"
 	"path/filepath"
 	"runtime"
@@ -46,9 +46,10 @@ type Outcome struct {
 	Err    string   `json:"err,omitempty"` // NewHTML / user CSS returned an error (a normal return)
 	// root discovery observables (tree.go 53-64)
 	Top      []TopNode `json:"top,omitempty"` // children of the parsed document node
-	RootIdx  int       `json:"root_idx"`       // index of HTML.Root among them (-1: nil root)
+	RootIdx  int       `json:"root_idx"`      // index of HTML.Root among them (-1: nil root)
 	RootKind string    `json:"root_kind,omitempty"`
 	Exit     bool      `json:"exit,omitempty"` // worker must be restarted (abandoned goroutine)
+	Analysis *Analysis `json:"analysis,omitempty"`
 	Ms       int       `json:"ms"`
 }
 
@@ -350,14 +351,22 @@ func truncate(s string, n int) string {
 }
 
 type workerIn struct {
-	D  *Doc `json:"d"`
-	Ms int  `json:"ms"` // in-process hang timeout
+	D       *Doc `json:"d"`
+	Ms      int  `json:"ms"`                // in-process hang timeout
+	Analyze bool `json:"analyze,omitempty"` // structural analysis instead of a render
 }
 
 func workerHandle(in string) (string, bool) {
 	var wi workerIn
 	if err := json.Unmarshal([]byte(in), &wi); err != nil || wi.D == nil {
 		return `{"status":"fatal","site":"fatal:bad-worker-input"}`, false
+	}
+	if wi.Analyze {
+		o := Outcome{Status: "ok"}
+		a := analyzeDoc(wi.D)
+		o.Analysis = &a
+		b, _ := json.Marshal(o)
+		return string(b), false
 	}
 	to := workerTimeout
 	if wi.Ms > 0 {
